@@ -778,7 +778,7 @@ pub fn run(a: &Args) {
         }
     }
     rep.distinct_nontrivial = distinct.len() as u64;
-    rep.rule = "evaluations = royalty_payout calls + instantiations + executed history steps. Payout: shares {none, 0, 1, 1%, 2%, 5%, 10%, 50%, 99%, 100%, 200%, u128::MAX} +-1 atomic x payments (small, 10^k, 10^18, u128::MAX, +-1) x fees on the `fees + royalty = payment` boundary +-1, with/without finder's fee, plus random u128. Histories: per variant (base, updatable, updatable-migrated, metadata-onchain, nt) initial entry {none, 0%, 1 unit, 2%, 10%, 100%} x first update at 24h-1ns/24h/24h+1ns x {+1 unit, +2pts, +2pts+1 unit, 5%, 100%} (monitors judge raises against the harness's ledger of the entry as the creator set it, never a read-back value), 0%/1-unit entries across a migration, lowering to 0% and back, instantiate shares around 100%, clocks at 24h-1ns/24h/24h+1ns from creation and from the previous accepted change, raises of 2% +-1 atomic from 12 bases, cap 10% +-1 atomic, first royalty on a royalty-less collection, climbs, non-creator senders, frozen collection, u64 clock overflow, admin migrations to the sg721-updatable code between royalty updates at 1 ns / 1 h / 24 h -1 / +0 / +1 over the same cw2 name x version grid as C09, then random royalty histories (with migrations). Non-trivial = payout that pays or refuses; history step (distinct by variant, call, sender, outcome and prior observation) that is not a message-does-not-exist rejection.".into();
+    rep.rule = "evaluations = royalty_payout calls + instantiations + executed history steps. Payout: shares {none, 0, 1, 1%, 2%, 5%, 10%, 50%, 99%, 100%, 200%, u128::MAX} +-1 atomic x payments (small, 10^k, 10^18, u128::MAX, +-1) x fees on the `fees + royalty = payment` boundary +-1, with/without finder's fee, plus random u128. Histories: per variant (base, updatable, updatable-migrated, metadata-onchain, nt) initial entry {none, 0%, 1 unit, 2%, 10%, 100%} x first update at 24h-1ns/24h/24h+1ns x {+1 unit, +2pts, +2pts+1 unit, 5%, 100%} (monitors judge raises against the harness's ledger of the entry as the creator set it, never a read-back value), 0%/1-unit entries across a migration, lowering to 0% and back, instantiate shares around 100%, clocks at 24h-1ns/24h/24h+1ns from creation and from the previous accepted change, raises of 2% +-1 atomic from 12 bases, cap 10% +-1 atomic, first royalty on a royalty-less collection, climbs, non-creator senders, frozen collection, u64 clock overflow, admin migrations to the sg721-updatable code between royalty updates at 1 ns / 1 h / 24 h -1 / +0 / +1 over the same cw2 name x version grid as C09, each variant's OWN migrate entry point with the same code id (Sg721Contract::migrate wired for sg721-base, sg721-updatable, metadata-onchain, nt) once / twice in a row / alternating with royalty updates, from the record as it is and from rewritten records (own name x version grid + 3.9.9, 3.10.0, 10.0.0 for the string comparisons), then random royalty histories (with both kinds of migration). Non-trivial = payout that pays or refuses; history step (distinct by variant, call, sender, outcome and prior observation) that is not a message-does-not-exist rejection.".into();
     out.write_cases("C10", "From LP Require Import Collection C10Corr.", "c10_case", "c10_check", &coq_cases, 6, &mut rep);
     out.finish(&rep);
     println!("C10 harness: {} evaluations in {} cases, {} monitor violations", rep.evaluations, coq_cases.len(), nviol);
